@@ -24,7 +24,7 @@
    correspondence of Client.v/Server.v/Tunnel.v with the C code plus the exactly-once / bounded-time
    oracle on the real programs in virtual time. *)
 From Coq Require Import List Arith Bool Lia NArith.
-From Iodine Require Import ProtoUp ProtoUpProofs ProtoDown ProtoDownProofs ProtoLive Client TimerProofs.
+From Iodine Require Import ProtoUp ProtoUpProofs ProtoDown ProtoDownProofs ProtoLive Client ClientLoop TimerProofs.
 Import ListNotations.
 
 Theorem C02_upstream_clean_path_exactly_once_in_order_partial :
@@ -87,3 +87,24 @@ Theorem C02_client_select_timeout_bounded :
   (select_timeout_ms s <= N.max (c_ping_soon s) (N.max 1000 (c_selecttimeout s * 1000)))%N.
 Proof. exact select_timeout_bounded. Qed.
 Print Assumptions C02_client_select_timeout_bounded.
+
+(* the select loop itself (ClientLoop.v, tied to the real client_tunnel() by scripted-select histories): once more than a
+   second has passed since the last chunk while a packet is in flight, ANY wake-up of the loop other than a lone datagram --
+   the select timeout, a tun packet, a tun packet together with a datagram -- runs the timeout branch: one more
+   retransmission is counted, or after the third the packet is given up.  A busy tun device cannot postpone it (D18). *)
+Theorem C02_busy_tun_cannot_starve_retransmit :
+  forall zc unz L e,
+  let s1 := watchdog (l_c L) (lnow e) in
+  c_running s1 = true -> is_sending s1 = true -> (l_lastchunk L + 1 < lnow e)%N ->
+  match e with LDns _ _ => False | _ => True end ->
+  match e with LBoth _ _ _ => reads_tun s1 = true | _ => True end ->
+  lstep zc unz L e = lwrap (lnow e) L s1 (timeout s1) /\
+  let s' := l_c (fst (lstep zc unz L e)) in
+  ((c_resent s1 < 3)%N -> is_sending s' = true /\ c_resent s' = (c_resent s1 + 1)%N) /\
+  ((3 <= c_resent s1)%N -> is_sending s' = false /\ c_resent s' = 0%N).
+Proof.
+  intros zc unz L e s1 H1 H2 H3 H4 H5. split.
+  - exact (busy_tun_cannot_starve_retransmit zc unz L e H1 H2 H3 H4 H5).
+  - exact (overdue_wakeup_progress zc unz L e H1 H2 H3 H4 H5).
+Qed.
+Print Assumptions C02_busy_tun_cannot_starve_retransmit.
